@@ -315,6 +315,7 @@ fn fails(case: &Case) -> Option<String> {
     match hostile::run_one("c18", &serde_json::to_string(case).unwrap()) {
         Ok(r) if r.ok => None,
         Ok(r) => Some(r.msg),
+        Err(how) if how.starts_with(hostile::STALL) => Some(how),
         Err(how) => Some(format!("the call through the trait does not terminate normally: {how} (stack overflow / abort)")),
     }
 }
@@ -337,7 +338,7 @@ fn minimise(case: &Case) -> Case {
     ];
     for f in &candidates {
         let cand = f(&best);
-        if cand != best && fails(&cand).is_some() {
+        if cand != best && fails(&cand).is_some_and(|m| !m.starts_with(hostile::STALL)) {
             best = cand;
         }
     }
@@ -372,15 +373,24 @@ pub fn run(ctx: &mut Ctx) {
     }
     ctx.note("worker_deaths", json!(out.deaths.len()));
     let mut seen = std::collections::HashSet::new();
+    let mut unconfirmed = 0u64;
     for (case, msg) in failures {
         let sig: String = format!("{}|{}", case.op % 3, msg.chars().take(40).collect::<String>());
-        if !seen.insert(sig) || seen.len() > 3 {
+        if seen.contains(&sig) || seen.len() >= 3 {
             continue;
         }
+        // confirm in a fresh process of its own (a worker killed from outside does not reproduce)
+        let Some(msg) = fails(&case) else {
+            unconfirmed += 1;
+            continue;
+        };
+        hostile::exit_if_stalled("C18", &msg);
+        seen.insert(sig);
         let min = minimise(&case);
-        let m2 = fails(&min).unwrap_or(msg);
+        let m2 = fails(&min).filter(|m| !m.starts_with(hostile::STALL)).unwrap_or(msg);
         ctx.violation(&format!("differential-{}", seen.len()), json!(min), &m2);
     }
+    ctx.note("failures_not_reproduced_in_isolation", json!(unconfirmed));
     if let Some(why) = out.inconclusive {
         if ctx.violations.is_empty() {
             eprintln!("C18 inconclusive: {why}");
@@ -393,6 +403,9 @@ pub fn replay(_ctx: &mut Ctx, _stage: &str, case: &Value) -> Result<(), String> 
     let c: Case = serde_json::from_value(case.clone()).map_err(|e| format!("bad case: {e}"))?;
     match fails(&c) {
         None => Ok(()),
-        Some(m) => Err(m),
+        Some(m) => {
+            hostile::exit_if_stalled("C18", &m);
+            Err(m)
+        }
     }
 }
